@@ -256,6 +256,11 @@ def _resolve_identifier(
             if index + 1 < total_scopes
             else ()
         )
+        if scope.home is not None:
+            # A `with` environment written elsewhere: its members' values
+            # belong to the place where the set is written.
+            outer_chain = scope.home
+            scope_chain = scope.home + (scope,)
         if scope.weak and scope.lexical:
             # Inside a `rec` environment the members bind each other like any
             # rec set's: only from the outside is the environment weak.
